@@ -538,9 +538,12 @@ func (g *Gen) enterLoop(li *loopInfo, h Heap, preds []*ssa.BasicBlock, conds []s
 	}
 	guard := g.reach[b]
 	// obligations on entry + assumptions at head
+	li.entryVals = entryVals
 	envEntry := g.newEnv(h, g.entryHeap, b)
 	envEntry.phiSubst = entryVals
+	envEntry.entry, envEntry.entryPhi = h, entryVals
 	envHead := g.newEnv(hh, g.entryHeap, b)
+	envHead.entry, envHead.entryPhi = h, entryVals
 	if li.spec != nil && g.mode.Contracts {
 		for k, c := range li.spec.Invariants {
 			t, err := envEntry.evalBool(c.Expr)
@@ -621,6 +624,7 @@ func (g *Gen) closeLoop(li *loopInfo) {
 		}
 		env := g.newEnv(hp, g.entryHeap, b)
 		env.phiSubst = subst
+		env.entry, env.entryPhi = li.preHeap, li.entryVals
 		if li.spec != nil && g.mode.Contracts {
 			for k, c := range li.spec.Invariants {
 				t, err := env.evalBool(c.Expr)
